@@ -483,7 +483,7 @@ impl<'a, 'b> R<'a, 'b> {
         self.out.push(';');
         let n = self.t.weighted(&[2, 3, 3, 2, 1, 1, 1, 1]) * 3;
         const TAME: &[&str] = &["a", "b", " ", "x3000", ";", "\"", "\\", "#", "R1", ".end", ":", ",", "é", "-", "'"];
-        const WILD: &[&str] = &["\t", "\u{1}", "\u{7f}", "ı", "😀", "\u{a0}", "\\n", "\\\"", "\u{0}", "|", " | ", "====", "\u{85}"];
+        const WILD: &[&str] = &["\t", "\u{1}", "\u{7f}", "ı", "😀", "\u{a0}", "\\n", "\\\"", "\u{0}", "|", " | ", "====", "\u{85}", "\u{0}7", "\u{0}12", "\u{1b}[0m", "\u{8}"];
         for _ in 0..n {
             if self.opts.wild_comments && self.t.chance(1, 4) {
                 let s = *self.t.choose(WILD);
